@@ -80,8 +80,6 @@ package interp
 //@   ensures depth-untouched: g.fDepth == old(g.fDepth)
 //@   canary g.mode == reason
 
-//@ trusted func (dbg *Debugger) getGoRoutine(id) (g, ok)
-//@   ensures ok ==> g != nil
 //@ func (dbg *Debugger) Step(id, reason) (err)
 //@   props C19
 //@   opt safety = off
@@ -115,3 +113,35 @@ package interp
 //@   ensures others-keep-the-answer-and-descend: !(fresh0 && match) ==> originalNode == old(originalNode) && cont
 //@   ensures node-marked-seen: has(seen, wn.index)
 //@   canary originalNode == old(originalNode)
+
+// getGoRoutine is the lookup in the table of live routines (no longer trusted: verified below).
+//@ func (dbg *Debugger) getGoRoutine(id) (g, ok)
+//@   props C19
+//@   opt safety = off
+//@   opt locks = ignore
+//@   requires [assume] dbg != nil && dbg.gLock != nil
+//@   ensures the-live-routine-with-this-id: ok == has(dbg.gLive, id) && (ok ==> g == dbg.gLive[id])
+//@   ensures table-untouched: dbg.gLive == old(dbg.gLive)
+
+// Interrupt: the request reaches the live routine with the given id (mode and depth as setMode records
+// them) and only that one; an unknown id is reported and changes nothing.
+//@ func (dbg *Debugger) Interrupt(id, reason) (r)
+//@   props C19
+//@   opt safety = off
+//@   requires [assume] dbg != nil
+//@   ensures [local:g] unknown-routine-is-reported: !r ==> !ok
+//@   ensures [local:g] request-recorded-in-the-named-routine: r && old(g.mode) != DebugTerminate && (reason == DebugStepInto || reason == DebugStepOver || reason == DebugStepOut) ==> g.mode == reason && g.fStep == old(g.fDepth)
+//@   ensures [local:g] pause-request-pauses: r && old(g.mode) != DebugTerminate && reason == DebugPause ==> g.mode == DebugPause
+//@   canary r
+
+// Terminate: every live routine is told to terminate (mode DebugTerminate, resume channel closed) and the
+// table of live routines is emptied, so that later requests find no routine.
+//@ func (dbg *Debugger) Terminate()
+//@   props C19
+//@   opt safety = off
+//@   opt opaque-calls = *
+//@   opt opaque-havoc = none
+//@   requires [assume] dbg != nil && dbg.gLock != nil
+//@   ensures no-routine-is-live-afterwards: dbg.gLive == nil
+//@   loop 1
+//@   step [next] routine-told-to-terminate: g.mode == DebugTerminate
